@@ -71,7 +71,7 @@ def consumed_after(k, n, B, H):
 def make_input(kind, data, sw, ch, files):
     L = lib()
     kw = dict(sr=SR, sw=sw, ch=ch)
-    if kind.startswith("rec:"):
+    if kind.startswith(("rec:", "Rec:")):
         kind = kind[4:]
     if kind == "bytes":
         return data, kw
@@ -128,6 +128,8 @@ def build_reader(kind, data, sw, ch, files, block_dur, hop_dur, max_read, record
         chunks = [int(x) for x in kind.split(":")[1].split(",")] if ":" in kind else None
         sys.stdin = FakeStdin(data, chunks)
     try:
+        if kind.startswith("Rec:"):
+            cls = "Recorder"  # the Recorder class spells the same thing
         if kind.startswith("rec:"):
             record = True  # the framing statement holds for a recording reader as well (no rewind in this history)
         if cls == "Recorder":
@@ -135,7 +137,7 @@ def build_reader(kind, data, sw, ch, files, block_dur, hop_dur, max_read, record
                 # the documented order of the first parameters, written positionally
                 return L["util"].Recorder(inp, block_dur, hop_dur, max_read, **kw)
             return L["util"].Recorder(inp, block_dur=block_dur, hop_dur=hop_dur, max_read=max_read, **kw)
-        if not record and not kind.startswith("rec:") and round(block_dur * SR) % 2 == 0:
+        if not record and not kind.startswith(("rec:", "Rec:")) and cls is None and round(block_dur * SR) % 2 == 0:
             return L["util"].AudioReader(inp, block_dur, hop_dur, False, max_read, **kw)  # AudioReader's documented order
         return L["util"].AudioReader(inp, block_dur=block_dur, hop_dur=hop_dur, max_read=max_read, record=record, **kw)
     finally:
@@ -166,11 +168,12 @@ def c10_case(kind, n, sw, ch, files, B, block_dur, H, hop_dur, max_read, extra_r
             return "block_size is %r, floor(block_dur*rate) is %d" % (r.block_size, B)
         if premature and not kind.startswith("stdin") and kind != "buffer_pos2":
             # reading a reader that is not open is an error - and must leave it usable once opened
-            try:
-                if r.read() is not None:
-                    return None  # statement silent on a reader that hands out data before open(): not judged
-            except Exception:
-                pass
+            for _ in range(2):  # more than one attempt before the reader is opened
+                try:
+                    if r.read() is not None:
+                        return None  # statement silent on a reader that hands out data before open(): not judged
+                except Exception:
+                    pass
         r.open()
         got = []
         for i_ in range(len(exp) + extra_reads):
@@ -783,7 +786,7 @@ def run(prop, tier):
         rep = common.Report(prop, tier, "bounded-exhaustive enumeration of (source length x format x block x hop x max_read x "
                             "source kind) with reads past the end, against the by-definition block model")
         kinds = ["bytes", "buffer", "raw", "wav", "stdin", "wav_eager", "stdin:1", "stdin:3", "stdin:5,2", "buffer_pos2",
-                 "rec:bytes", "rec:wav", "wavx", "user_adapter"]
+                 "rec:bytes", "rec:wav", "wavx", "user_adapter", "Rec:bytes"]
         tasks = [(sw, ch, B, kinds, tier, 8) for (sw, ch) in FORMATS for B in (range(1, 6) if quick else range(1, 8))]
         # a high rate: max_read / block_dur / hop_dur are sub-millisecond values there
         tasks += [(sw, ch, B, ["bytes", "wav", "stdin", "stdin:3", "rec:bytes"], tier, 16000) for (sw, ch) in FORMATS[:2] for B in ((2, 3) if quick else (1, 2, 3, 5))]
